@@ -15,6 +15,7 @@
 //!     cget,k  clen  cemp  citer                        RelIndexCombined(total, delta)
 //!     par,s,mode,seed,script                           concurrent phase; mode r1 r2 r3 r8 (rayon pool) | std (threads)
 //!        script = task/task/...; task = item+item+...; item = i:k:v (index_insert) | n:k:v (insert_if_not_present)
+//! usage: ds_index p<N> contend <type> <npool> <mode> <T> <m> <nkeys> <kind> <vdom> <pre>     one big concurrent fill (contend.rs)
 //! output: results of the read operations separated by " ; ":
 //!   g none | g - | g v1,v2   b 0|1   n <num>   it k=v1,v2|k=...   w k:winners,... @ worker index of each task
 //!   then "panic"/"unsup" ends the line
@@ -22,6 +23,7 @@ use std::io::{self, BufRead, Write};
 use std::panic::{self, AssertUnwindSafe};
 use std::sync::Mutex;
 
+mod contend;
 mod ix;
 use ix::*;
 
@@ -210,6 +212,11 @@ fn main() {
    // fix the process-wide DashMap shard count
    let shards = ctx.pool(first).install(ascent::internal::shards_count);
    assert_eq!(shards, (first * 4).next_power_of_two());
+   if std::env::args().nth(2).as_deref() == Some("contend") {
+      // CONTENTION mode: one big concurrent fill per process (see contend.rs)
+      let args: Vec<String> = std::env::args().skip(3).collect();
+      std::process::exit(contend::main(&mut ctx, &args));
+   }
    let stdin = io::stdin();
    let stdout = io::stdout();
    let mut outp = io::BufWriter::new(stdout.lock());
